@@ -472,6 +472,28 @@ the cluster size, `build_cluster` with the `WeightedBoundaryManager`, and the po
 recorded draws of **every** proposed update and requires the traced region and the number of words
 consumed to be equal. Its only input besides the RNG script is the `Skeleton`. -/
 
+/-- `find_constants`: `var_lengths[v]` = number of constant operators on `v`, `constant_ps` = the
+per-variable position lists concatenated, `var_starts[v]` = number of constant operators on the
+variables before `v` (so the cell with flat index `i` belongs to the last `v` with
+`var_starts[v] ≤ i`, which is what the binary search of the start-cell choice returns),
+`vars_with_zero_ops` = the variables without constant operators, increasing. -/
+theorem findConstants_spec (sk : Skeleton) :
+    (findConstants sk).varLengths = (List.range sk.nvars).map (fun v => (sk.cps.getD v []).length) ∧
+    (findConstants sk).constantPs = ((List.range sk.nvars).map (fun v => sk.cps.getD v [])).flatten ∧
+    (findConstants sk).varStarts =
+      (List.range sk.nvars).map (fun v => (((List.range v).map (fun u => sk.cps.getD u [])).flatten).length) ∧
+    (findConstants sk).idle = (List.range sk.nvars).filter (fun v => (sk.cps.getD v []).isEmpty) :=
+  Rvb.findConstants_spec sk
+
+/-- the start cell: for a flat cell index `choice < #constant ops` the variable selected (model:
+last `v` with `var_starts[v] ≤ choice`; code: `binary_search` + walk to the last equal entry) is the
+one whose block of `constant_ps` contains `choice`. -/
+theorem pickStart_owner (sk : Skeleton) (choice : Nat) (h : choice < (findConstants sk).constantPs.length) :
+    let C := findConstants sk
+    let v := (C.varStarts.filter (· ≤ choice)).length - 1
+    v < sk.nvars ∧ C.varStarts.getD v 0 ≤ choice ∧ choice < C.varStarts.getD v 0 + C.varLengths.getD v 0 :=
+  Rvb.pickStart_owner sk choice h
+
 /-- **the proposal reads only the skeleton**: two configurations (possibly of two Ising models) with
 the same number of variables, the same edges up to the sign of `J` (`bond_mag = |J|`), the same
 cutoff and the same positions of constant operators on every variable get, for every RNG script,
@@ -571,6 +593,21 @@ example : proposesRegion 3 exR (proposeRegionCfg exE exA (RS.ofScript [0, 0, 123
 example : (proposeRegionCfg exE exB (RS.ofScript [0, 3, 5, 2 ^ 63, 7, 9, 11, 13])).1.clusterVars.length = 3 := by
   decide +kernel
 
+/-- non-vacuity of `proposal_depends_on_skeleton_only`: an antiferromagnetic triangle with other Γ, h,
+another spin state, the two-site operator on another bond, a further two-site operator, and the
+constant operators diagonal ↔ off-diagonal — same constant-operator positions, so the same
+proposal for every script. -/
+def exE2 : Ising := { nvars := 3, edges := [(0, 1, -1), (1, 2, -1), (0, 2, -1)], gamma := 1 / 2, h := 1 / 4 }
+def exB2 : Config :=
+  { state := [true, true, false],
+    slots := [some (Op.offdiagonal [1] 4 [true] [false] true), some (Op.diagonal [0, 2] 2 [true, false] false),
+              some (Op.diagonal [1, 2] 1 [false, false] false), some (Op.offdiagonal [1] 4 [false] [true] true),
+              some (Op.diagonal [2] 5 [false] true), none] }
+
+theorem ex_skeleton_only (rs : RS) : proposeRegionCfg exE exB rs = proposeRegionCfg exE2 exB2 rs :=
+  proposal_depends_on_skeleton_only exE exE2 exB exB2 rfl (by decide +kernel) rfl (by decide) rs
+
+example : exB.state ≠ exB2.state ∧ exB.slots ≠ exB2.slots ∧ Consistent exB2 := by decide
 /-- the hypothesis of `rvbMove_preserves_skeleton` is needed: flag the rotating two-site operator
 of the example constant (the relation keeps the flag) and the constant-operator positions of
 variables 0 and 2 change. -/
